@@ -82,9 +82,9 @@ Print Assumptions c02_oracle_run.
 (** Over a whole session every key pair is new with respect to every key that
     existed before it (registered keys, keys in the agent, earlier requests'
     keys), given an injective key-pair stream that avoids the old keys. *)
-Theorem c02_oracle_session : forall dir chal keypair, Injective keypair -> forall rs s old_keys,
+Theorem c02_oracle_session : forall chal keypair, Injective keypair -> forall rs s old_keys,
   (forall n, (s_kdraws s <= n)%nat -> ~ In (keypair n) old_keys) ->
-  oracle_c02_session old_keys rs (snd (session dir chal keypair rs s)) = true.
+  oracle_c02_session old_keys rs (snd (session chal keypair rs s)) = true.
 Proof. exact oracle_c02_session_model. Qed.
 Print Assumptions c02_oracle_session.
 
